@@ -174,7 +174,7 @@ for col, cname, w in [("w", "White", True), ("b", "Black", False)]:
         ["generate_valid_moves"], "fully symbolic Disjoint board; symbolic subset kept by the filter stub",
         stubs=[NOSPILL, "generate_knight_moves, generate_sliding_moves, generate_king_moves, generate_pawn_moves, generate_castle_moves -> push one marker move and record (board, colour); remove_invalid_moves -> records the list it sees, keeps a symbolic subset; contracts discharged by the stage harnesses c01_*"],
         module=MG, est_s=60)
-    for fl in ["a", "h"]:
+    for fl in (["a"] if col == "w" else ["h"]):
         add(f"c01_wire_pawn_{col}_{fl}", ["C01"], "thorough",
             f"generate_pawn_moves wiring for {cname}, last-rank destination on the {fl}-file (corner square): same contract as c01_wire_pawn_{col}",
             ["generate_pawn_moves", "PAWN_PROMOTIONS", "PawnPromotionChessMove::new"], "fully symbolic Disjoint board; symbolic outputs of the stubbed sub-stages; destination squares concrete",
@@ -185,7 +185,7 @@ for col, cname, w in [("w", "White", True), ("b", "Black", False)]:
         ["generate_pawn_moves", "PAWN_PROMOTIONS", "PawnPromotionChessMove::new"],
         "fully symbolic Disjoint board; symbolic outputs of the stubbed sub-stages",
         stubs=[NOSPILL, "generate_pawn_move_targets, generate_pawn_attack_targets, expand_piece_targets, generate_en_passant_moves -> symbolic outputs + argument records; contracts discharged by c01_pawn_*, c01_expand_*, c01_ep_*"],
-        module=MG, unwind=10, est_s=120)
+        module=MG, unwind=10, est_s=400, heavy=True)
     for kind in ["std", "promo", "ep", "oo", "ooo"]:
         add(f"c01_filter_{kind}_{col}", ["C01"], "quick",
             f"remove_invalid_moves on a singleton list holding a Legalish {KIND_NAMES[kind]} by {cname}: kept <=> A misses the mover's king in the successor position; A requested for the opponent on the successor position; board bit-identical afterwards",
@@ -326,7 +326,7 @@ for col, cname in [("w", "White"), ("b", "Black")]:
         ["generate_pawn_attack_targets"], "fully symbolic Disjoint board; <=8 own pawns, none on rank 1/8", stubs=[NOSPILL], module=MG, unwind=66, est_s=150, native=[])
     add(f"c01_pawn_targets_{col}", ["C01"], "quick",
         f"generate_pawn_move_targets for {cname}: exactly the own pawns with a push available, targets == single push to an empty square plus the double push from the home rank through two empty squares",
-        ["generate_pawn_move_targets"], "fully symbolic Disjoint board; <=8 own pawns, none on rank 1/8", stubs=[NOSPILL], module=MG, unwind=66, est_s=400, heavy=True, native=[])
+        ["generate_pawn_move_targets"], "fully symbolic Disjoint board; <=8 own pawns, none on rank 1/8", stubs=[NOSPILL], module=MG, unwind=66, est_s=200, native=[])
     add(f"c01_expand_{col}", ["C01"], "thorough",
         f"expand_piece_targets for {cname}: one Standard move per target bit (<=27), origin preserved, capture tag == enemy piece on the destination, appended after existing entries, no duplicates",
         ["expand_piece_targets", "PieceSet::get", "Bitboard::pop_lsb"], "fully symbolic Disjoint board; one symbolic (square, targets) entry with <=27 targets disjoint from own pieces", stubs=[NOSPILL], module=MG, unwind=30, est_s=400, heavy=True, native=[])
@@ -439,7 +439,7 @@ PROPS = {
         level_note="Side condition checked syntactically on the tree: the key field is written only inside the three toggle functions, piece sets only inside put/remove. H1 is per draw by nature (each check run sees a fresh draw, the build script runs inside the Kani build). Trusted: Kani/CBMC/CaDiCaL.",
     ),
     "C01": dict(
-        title="Generated moves are exactly the legal moves of chess", jobs=16, jobs_thorough=4, mem_gb=14, timeout_thorough=4500,
+        title="Generated moves are exactly the legal moves of chess", jobs=16, jobs_thorough=8, jobs_heavy=3, mem_gb=14, timeout_thorough=4500,
         technique=TECH + "; compositional: per-stage contracts against independent reference rules + a wiring lemma with all stages stubbed",
         level_text="Bounded model checking, compositional. The whole generator cannot be symbolically executed (measured), so each stage of generate_valid_moves is checked on fully symbolic boards against independent reference rules (en passant, castling conditions, pawn pushes/captures/promotions, leaper tables, slider stage, target expansion, legality filter per move kind), and two wiring lemmas on the real generate_valid_moves / generate_pawn_moves with every stage stubbed show the stages are composed as the argument assumes. The attack map is an arbitrary bitboard in the castle and filter stages; its exactness is discharged by the A1 lemmas and C11.",
         level_note="Never runs two real stages back to back: 'each stage meets its contract' and 'the stages are wired as shown' => 'output is the legal set' is a propositional step. SmallVec's heap-spill path is cut (a spill inside a harness is a reported failure). Boards with >16 pieces or >8 pawns per side are outside the claim. Trusted: Kani/CBMC/CaDiCaL, reference rules.",
